@@ -485,8 +485,23 @@ class SchedAdapter:
             report('C03/crew-view', f'in flight {names} but crew() reports '
                    f'{w.busy_names()}')
         for e in self.log:
-            if e[0] == 'log.exception':
+            if e[0] == 'log.exception' and tuple(ev) != ('tick', 'db-outage'):
                 report('C03/dispatch-exception', f'{e[1]}: {e[2]}')
+        # (v) what a dispatch releases (todo -> doing) exists somewhere: still in
+        # the farm's batch, queued for a worker, or written to one
+        if ev[0] == 'tick':
+            accounted = {(e[1], e[2]) for e in puts}
+            for j in farm._jobs:
+                for t in j.get('do'):
+                    accounted.add((j.tag, t))
+                    accounted.add((j.tag, '__all__'))
+            before_doing = {t: set(d) for t, _todo, d, _do, _st, _rid, _ev in s['nodes']}
+            for tag, n in w.nodes.items():
+                for t in set(n.get('doing')) - before_doing.get(tag, set()):
+                    if (tag, t) not in accounted and (tag, '__all__') not in accounted:
+                        report('C03/released-unit-neither-queued-nor-handed',
+                               f'{tag}[{t}] moved to doing by this dispatch but no task message was built and the '
+                               f'job is not in the farm batch any more')
         for o in w.obs:
             if o[0] == 'handler-exception':
                 report(f'C03/farm-handler-raised/{ev[0]}/{o[1]}', f'event {ev}: Hand.dataReceived raised {o[1]}: {o[2]}')
@@ -571,6 +586,15 @@ class SchedAdapter:
                     report(f'C05/frame/{nm}-shrank/{where}',
                            f'{o} of {j}[{t}] removed {sorted(lost - allowed)} '
                            f'from {nm} of {tag}')
+        # pending work stays schedulable: a node that was in the work queue and
+        # still has something pending or executing is still in the work queue
+        qnow = {n.tag for n in schedule.que}
+        for tag in s['que']:
+            if tag not in qnow and (after[tag][0] or after[tag][1]):
+                where = 'dependent' if tag in deps else ('self' if tag == j else 'unrelated')
+                report(f'C05/pending-work-dequeued/{where}',
+                       f'{o} of {j}[{t}]: {tag} left the work queue with todo={list(after[tag][0])} '
+                       f'doing={list(after[tag][1])}')
         if any(e[0] in ('update', 'organize') for e in self.log):
             report('C05/dependent-triggered',
                    f'{o} of {j}[{t}] reached schedule.update/organize')
